@@ -796,6 +796,40 @@ pub fn play_zero_requests(r: &mut Report, lab: &dyn Lab, id: &str, replay: &[Str
     }
 }
 
+/// A client that connects to the app with a connection timeout and sends nothing at all: the timed-out wait for the
+/// FIRST request is answered 408 and the connection closes, just like an idle wait between keep-alive requests.
+pub fn play_idle_from_start(r: &mut Report, lab: &dyn Lab, id: &str, replay: &[String]) {
+    let addr = match lab.timeout_addr() {
+        Some(a) => a,
+        None => return,
+    };
+    if is_dead(addr) {
+        return;
+    }
+    r.eval();
+    let mut c = match Conn::open(addr) {
+        Ok(c) => c,
+        Err(e) => {
+            r.inconclusive(format!("cannot connect to the lab app: {}", e));
+            return;
+        }
+    };
+    std::thread::sleep(Duration::from_millis(TIMEOUT_MS * 3));
+    let ex = J::obj(vec![("id", J::s(id)), ("timeout_ms", J::u(TIMEOUT_MS)), ("runtime", J::s(lab.runtime()))]);
+    match c.read_response(Duration::from_secs(5)) {
+        Ok(Some(m)) if m.status() == 408 => {
+            if c.wait_closed(Duration::from_secs(5)) {
+                r.count("idle_from_start_answered_408_and_closed", 1);
+            } else {
+                r.violation("C01/idle-not-408", format!("[{}] the connection stayed open after the 408 for a client that never sent a request", lab.runtime()), ex, replay.to_vec());
+            }
+        }
+        Ok(Some(m)) => r.violation("C01/idle-not-408", format!("[{}] a client that connected and sent nothing for {} ms (timeout {} ms) was answered {} instead of 408", lab.runtime(), TIMEOUT_MS * 3, TIMEOUT_MS, m.status()), ex, replay.to_vec()),
+        Ok(None) => r.violation("C01/idle-not-408", format!("[{}] a client that connected and sent nothing got no 408 within {} ms + 5 s (timeout {} ms), eof={}", lab.runtime(), TIMEOUT_MS * 3, TIMEOUT_MS, c.eof), ex, replay.to_vec()),
+        Err(e) => r.violation("C01/response-malformed", format!("[{}] 408 response malformed: {}", lab.runtime(), e), ex, replay.to_vec()),
+    }
+}
+
 /// One well-formed request on the app with a connection timeout, delivered in two segments that are further
 /// apart than the timeout. The timeout governs the wait *for a request*; whatever the server makes of a slow
 /// request, the request must get exactly one response (the regular one, or a 408 followed by close) and must
@@ -1004,6 +1038,9 @@ pub fn run_all(r: &mut Report, lab: &dyn Lab, seed: u64, shard: usize, nshards: 
         }
         if k % 16 == 5 {
             play_slow_request(r, lab, &mut rng, &format!("{}y", id), &replay);
+        }
+        if k % 40 == 9 {
+            play_idle_from_start(r, lab, &format!("{}q", id), &replay);
         }
         if k % 50 == 11 {
             play_big_response(r, lab, &mut rng, &format!("{}b", id), false, &replay);
